@@ -122,9 +122,10 @@ def worker_main(argv):
     t0 = time.time()
     last_idx = -1
     exhausted = True
+    replay = a.get("replay_case")
+    ctx.shard, ctx.nshards, ctx.replay, ctx.attempt = shard, nshards, replay is not None, attempt
     if hasattr(prop, "setup"):
         prop.setup(ctx)
-    replay = a.get("replay_case")
     source = enumerate(prop.cases(tier, seed)) if replay is None else [(replay.get("idx", 0), replay)]
     for idx, case in source:
         if replay is None and (idx % nshards != shard or idx < skip_until or idx in skip):
@@ -158,6 +159,13 @@ def worker_main(argv):
         last_idx = idx
         if ctx.cases % 50 == 0:
             _write_result(result, ctx, last_idx, False, False, t0)
+    if hasattr(prop, "teardown"):
+        # companion processes started by setup() (e.g. the valgrind run of C09) are collected here
+        try:
+            prop.teardown(ctx)
+        except Exception as e:
+            ctx.violations.append({"property": prop_id, "key": "HARNESS-ERROR", "msg": f"teardown: {type(e).__name__}: {e}",
+                                   "case": None, "detail": traceback.format_exc()[-3000:]})
     _write_result(result, ctx, last_idx, True, exhausted, t0)
     try:
         os.unlink(journal)
